@@ -17,14 +17,38 @@ from mc.gen import t4
 from mc.ref import geom
 from mc.ref import labels as RL
 
+import numpy as np
+
+
+def _rz(a):
+    c, s_ = math.cos(a), math.sin(a)
+    return np.array([[c, -s_, 0.0], [s_, c, 0.0], [0.0, 0.0, 1.0]])
+
+
+def _ego_matrix(ego):
+    """4x4 ego(base_link)->map matrix of an ego pose (x, y, yaw) or (x, y, z, yaw, pitch, roll): R = Rz(yaw) Ry(pitch) Rx(roll)."""
+    if len(ego) == 3:
+        x, y, z, yaw, pitch, roll = ego[0], ego[1], 0.0, ego[2], 0.0, 0.0
+    else:
+        x, y, z, yaw, pitch, roll = ego
+    cp, sp, cr, sr = math.cos(pitch), math.sin(pitch), math.cos(roll), math.sin(roll)
+    Ry = np.array([[cp, 0.0, sp], [0.0, 1.0, 0.0], [-sp, 0.0, cp]])
+    Rx = np.array([[1.0, 0.0, 0.0], [0.0, cr, -sr], [0.0, sr, cr]])
+    M = np.eye(4)
+    M[:3, :3] = _rz(yaw) @ Ry @ Rx
+    M[:3, 3] = (x, y, z)
+    return M
+
+
 ID = "C16"
 RULE = ("generated T4 datasets: 1..3 samples (thorough 4) x every presence pattern of 2 instances (thorough 3) over the samples x 3 "
         "category pairs (registered, merged-away, unregistered) x both visibility naming styles x {LIDAR_CONCAT, LIDAR_TOP + extra "
-        "camera sensor} x attribute on/off, with per-sample ego poses from the menu and per-instance pose menus (yaws across +-pi); each "
+        "camera sensor} x attribute on/off, with per-sample ego poses from the menu (planar, and a tilted variant with roll/pitch/height) and per-instance pose menus (yaws across +-pi); each "
         "dataset is loaded as detection/base_link, tracking/map, sensing/base_link (merge on) and detection/map (merge on). state = "
         "(samples, presence pattern, categories, style, channel, task/frame/merge); non-trivial = an instance appears or disappears")
 ASSUMPTIONS = [
-    "the lidar is calibrated at the ego origin (T4 convention named in the statement); poses are planar (yaw) with z offsets",
+    "the lidar is calibrated at the ego origin (T4 convention named in the statement); object poses are planar (yaw) with z offsets, ego poses are "
+    "planar or tilted (roll, pitch, height)",
     "expected values are the writer's own tables (mc/gen/t4.py); golden labels from mc/ref/labels.py; tolerance 1e-6",
 ]
 CATS = [("car", "pedestrian.adult", "bicycle"), ("bus", "animal", "truck"), ("weird.thing", "car", "motorbike")]
@@ -66,6 +90,8 @@ def run_unit(unit, acc):
             for style in STYLES:
                 for variant in (0, 1):
                     check_case(dict(nsamp=unit["nsamp"], pres=pat, cats=ci, style=style, variant=variant, seed=_SEED[0]), acc)
+            # tilted ego (roll / pitch / height), one sensor variant
+            check_case(dict(nsamp=unit["nsamp"], pres=pat, cats=ci, style="t4", variant=ci % 2, seed=_SEED[0], tilt=True), acc)
 
 
 def check_case(case, acc):
@@ -85,7 +111,10 @@ def check_case(case, acc):
                 p, yaw = POSE[inst][k]
                 anns.append(dict(inst=inst, cat=cats[ii], pos=p, yaw=yaw, size=(1.5 + ii, 4.0 - ii, 1.2 + 0.1 * k), npts=3 + k + 10 * ii,
                                  vis=levels[(k + ii) % 4], attrs=["vehicle_state.moving"] if (case["variant"] and ii == 0) else []))
-        samples.append(dict(ts=1000000 + 100000 * k, ego=egos[k % len(egos)], anns=anns))
+        ego = egos[k % len(egos)]
+        if case.get("tilt"):
+            ego = (ego[0], ego[1], 0.3 + 0.1 * k, ego[2], 0.05 - 0.02 * k, -0.04 + 0.03 * k)
+        samples.append(dict(ts=1000000 + 100000 * k, ego=ego, anns=anns))
     if _DIR[0] is None or not os.path.isdir(_DIR[0]):
         _DIR[0] = scratch.new_dir("c16")
     root = os.path.join(_DIR[0], "ds")
@@ -123,11 +152,10 @@ def check_case(case, acc):
             byid = {}
             for o in f.objects:
                 byid.setdefault(o.uuid, []).append(o)
-            ex, ey, ea = s["ego"]
             M = f.transforms[(FrameID.BASE_LINK, FrameID.MAP)]
-            mp, mr = M.transform((0.0, 0.0, 0.0), (1.0, 0.0, 0.0, 0.0))
-            if abs(mp[0] - ex) > 1e-6 or abs(mp[1] - ey) > 1e-6 or geom.adiff(mr.yaw_pitch_roll[0], ea) > 1e-6:
-                bad("ego-transform", "frame %d: stored ego->map transform is (%s, yaw %.6f), ego pose is %s" % (k, mp[:2], mr.yaw_pitch_roll[0], s["ego"]))
+            E = _ego_matrix(s["ego"])
+            if not np.allclose(M.matrix, E, atol=1e-9):
+                bad("ego-transform", "frame %d: stored ego->map transform differs from the ego pose %s" % (k, s["ego"]))
             for a in s["anns"]:
                 os_ = byid.get(a["inst"], [])
                 if len(os_) != 1:
@@ -148,18 +176,17 @@ def check_case(case, acc):
                 if not (o.frame_id == FrameID.from_value(fid)) or o.unix_time != s["ts"]:
                     bad("object-frame/time", "object frame id %s time %s" % (o.frame_id, o.unix_time))
                 gx, gy, gz = a["pos"]
-                if fid == "map":
-                    exp = (gx, gy, gz, a["yaw"])
-                else:
-                    lx, ly, lyaw = geom.map_to_ego(gx, gy, a["yaw"], s["ego"])
-                    exp = (lx, ly, gz, lyaw)
+                Og = np.eye(4)
+                Og[:3, :3] = _rz(a["yaw"])
+                Og[:3, 3] = (gx, gy, gz)
+                W = Og if fid == "map" else np.linalg.inv(E) @ Og
                 p = o.state.position
-                y = o.state.orientation.yaw_pitch_roll[0]
-                if max(abs(p[0] - exp[0]), abs(p[1] - exp[1]), abs(p[2] - exp[2])) > 1e-6 or geom.adiff(y, exp[3]) > 1e-6:
-                    bad("pose:" + fid, "object pose (%s, yaw %.6f), expected (%s, yaw %.6f)" % (tuple(p), y, exp[:3], exp[3]))
+                if max(abs(p[i] - W[i, 3]) for i in range(3)) > 1e-6 or not np.allclose(o.state.orientation.rotation_matrix, W[:3, :3], atol=1e-6):
+                    bad("pose:" + fid + (":tilted-ego" if case.get("tilt") else ""), "object pose %s / yaw %.6f, expected position %s (annotation moved by the inverse ego pose)" % (
+                        tuple(p), o.state.orientation.yaw_pitch_roll[0], tuple(W[:3, 3])))
                 if fid == "base_link":
                     pm, rm = M.transform(o.state.position, o.state.orientation)
-                    if max(abs(pm[0] - gx), abs(pm[1] - gy), abs(pm[2] - gz)) > 1e-6 or geom.adiff(rm.yaw_pitch_roll[0], a["yaw"]) > 1e-6:
+                    if max(abs(pm[0] - gx), abs(pm[1] - gy), abs(pm[2] - gz)) > 1e-6 or not np.allclose(rm.rotation_matrix, _rz(a["yaw"]), atol=1e-6):
                         bad("ego2map-roundtrip", "stored ego->map transform maps the ego-frame pose to %s, annotated global pose is %s" % (tuple(pm), a["pos"]))
                 if task == "tracking":
                     ii = insts.index(a["inst"])
